@@ -326,169 +326,64 @@ func terminatesWithError(info *types.Info, list []ast.Stmt) bool {
 
 func c01ErrPropagation(r *Report, s *S1) { errPropagation(r, s, "C01/err-propagation") }
 
+// errPropagation: failure-flow over the driver packages (fsinterp.go). Every call whose last
+// result is an error forks into a success and a failure outcome; on the failure outcome the
+// function must end in an error exit (non-nil error return, log.Fatal*, os.Exit≠0) — whatever
+// shape the test takes (if / switch / helper / closure that assigns the outer err).
 func errPropagation(r *Report, s *S1, ruleName string) {
-	n := 0
+	nForks, nFuncs := 0, 0
 	for _, path := range []string{modPath, modPath + "/cmd/goag"} {
 		p := s.Pkgs[path]
-		info := p.TypesInfo
+		c := &c19{r: r, s: s, p: p, info: p.TypesInfo, writers: map[*types.Func]int{}}
+		c.findWriters()
+		in := newFSInterp(c)
+		results := in.analyseAll()
+		var reach []fsFuncResult
+		for _, fr := range results {
+			if fr.fd != nil {
+				if fn := s.FuncOfDecl(p, fr.fd); fn == nil || !s.ReachAll[fn] {
+					continue
+				}
+			}
+			reach = append(reach, fr)
+		}
+		nf, _ := failureFlow(r, s, in, reach, ruleName, nil)
+		nFuncs += nf
+		nForks += len(in.forks)
+		// helpers that were inlined are judged at their call sites; say so
+		for _, h := range in.inlinedHelpers() {
+			r.OK(ruleName, p.Types.Name()+"."+h, "", "helper inlined at its call sites (its file arguments depend on its parameters)")
+		}
+		// deferred calls are not interpreted: an error they return is dropped
 		for _, file := range p.Syntax {
 			for _, d := range file.Decls {
 				fd, ok := d.(*ast.FuncDecl)
 				if !ok || fd.Body == nil {
 					continue
 				}
-				fn := s.FuncOfDecl(p, fd)
-				if fn == nil || !s.ReachAll[fn] {
-					continue
-				}
-				fkey := funcKey(p, fd)
-				isMain := path == modPath+"/cmd/goag"
-				seq := map[string]int{}
-				mk := func(call *ast.CallExpr) string {
-					nm := calleeName(info, call)
-					if nm == "" {
-						nm = types.ExprString(call.Fun)
+				ast.Inspect(fd.Body, func(n ast.Node) bool {
+					ds, ok := n.(*ast.DeferStmt)
+					if !ok {
+						return true
 					}
-					if i := strings.LastIndex(nm, "/"); i >= 0 {
-						nm = nm[i+1:]
-					}
-					// distinguish several calls of the same callee by a constant argument when there is one
-					arg := ""
-					for _, a := range call.Args {
-						ast.Inspect(a, func(x ast.Node) bool {
-							if bl, ok := x.(*ast.BasicLit); ok && bl.Kind == token.STRING && arg == "" {
-								arg = bl.Value
-							}
-							return true
-						})
-					}
-					k := fkey + ":" + nm
-					if arg != "" {
-						k += "(" + arg + ")"
-					}
-					seq[k]++
-					if seq[k] > 1 {
-						k += fmt.Sprintf("#%d", seq[k])
-					}
-					return k
-				}
-				var visit func(list []ast.Stmt, after []ast.Stmt)
-				checkAssigned := func(list []ast.Stmt, i int, call *ast.CallExpr, lhs []ast.Expr, after []ast.Stmt) {
-					idx, _ := returnsError(info, call)
-					if idx < 0 {
-						return
-					}
-					n++
-					key := mk(call)
-					pos := s.pos(call.Pos())
-					if idx >= len(lhs) {
-						r.Violation(ruleName, key, pos, "error result not bound")
-						return
-					}
-					id, ok := lhs[idx].(*ast.Ident)
-					if !ok || id.Name == "_" {
-						r.Violation(ruleName, key, pos, "error result discarded with _ : a failure would be reported as success")
-						return
-					}
-					eo := identObj(info, id)
-					if i+1 >= len(list) {
-						// last statement of an if/else arm: the test may follow the enclosing statement
-						list, i = append([]ast.Stmt{nil}, after...), 0
-					}
-					if i+1 >= len(list) {
-						r.Violation(ruleName, key, pos, "error is not tested after the call")
-						return
-					}
-					ifs, ok := list[i+1].(*ast.IfStmt)
-					if !ok || !condTestsErrG(info, ifs.Cond, eo) {
-						r.Violation(ruleName, key, pos, "statement after the call is not `if err != nil`")
-						return
-					}
-					c := &c19{info: info}
-					good := terminatesWithError(info, ifs.Body.List)
-					if !good && calleeName(info, call) == "os.Remove" {
-						good = c.returnsNonNilUnless(ifs, eo)
-					}
-					if !good && isMain {
-						good = terminatesWithError(info, ifs.Body.List)
-					}
-					r.Check(good, ruleName, key, pos, "the non-nil branch does not end in a non-nil error return (or a fatal exit): the failure is swallowed and success is reported")
-				}
-				visit = func(list []ast.Stmt, after []ast.Stmt) {
-					for i, st := range list {
-						rest := list[i+1:]
-						if len(rest) == 0 {
-							rest = after
+					if idx, _ := returnsError(p.TypesInfo, ds.Call); idx >= 0 {
+						nForks++
+						nm := calleeName(p.TypesInfo, ds.Call)
+						if i := strings.LastIndex(nm, "/"); i >= 0 {
+							nm = nm[i+1:]
 						}
-						switch st := st.(type) {
-						case *ast.AssignStmt:
-							if len(st.Rhs) == 1 {
-								if call, ok := st.Rhs[0].(*ast.CallExpr); ok {
-									checkAssigned(list, i, call, st.Lhs, after)
-								}
-							}
-						case *ast.ExprStmt:
-							if call, ok := st.X.(*ast.CallExpr); ok {
-								if idx, _ := returnsError(info, call); idx >= 0 {
-									n++
-									r.Violation(ruleName, mk(call), s.pos(call.Pos()), "error result of the call is dropped")
-								}
-							}
-						case *ast.DeferStmt:
-							if idx, _ := returnsError(info, st.Call); idx >= 0 {
-								n++
-								r.Violation(ruleName, mk(st.Call), s.pos(st.Call.Pos()), "error result of the deferred call is dropped")
-							}
-						case *ast.ReturnStmt:
-							for _, e := range st.Results {
-								if call, ok := e.(*ast.CallExpr); ok {
-									if idx, _ := returnsError(info, call); idx >= 0 {
-										n++
-										r.OK(ruleName, mk(call), s.pos(call.Pos()), "returned directly")
-									}
-								}
-							}
-						case *ast.IfStmt:
-							if as, ok := st.Init.(*ast.AssignStmt); ok && len(as.Rhs) == 1 {
-								if call, ok := as.Rhs[0].(*ast.CallExpr); ok {
-									if idx, _ := returnsError(info, call); idx >= 0 {
-										n++
-										var eo types.Object
-										if idx < len(as.Lhs) {
-											eo = identObj(info, as.Lhs[idx])
-										}
-										good := eo != nil && condTestsErrG(info, st.Cond, eo) && terminatesWithError(info, st.Body.List)
-										r.Check(good, ruleName, mk(call), s.pos(call.Pos()), "error bound in if-init is not tested / does not lead to a non-nil return")
-									}
-								}
-							}
-							visit(st.Body.List, rest)
-							switch e := st.Else.(type) {
-							case *ast.BlockStmt:
-								visit(e.List, rest)
-							case *ast.IfStmt:
-								visit([]ast.Stmt{e}, rest)
-							}
-						case *ast.BlockStmt:
-							visit(st.List, rest)
-						case *ast.ForStmt:
-							visit(st.Body.List, nil)
-						case *ast.RangeStmt:
-							visit(st.Body.List, nil)
-						case *ast.SwitchStmt:
-							for _, cc := range st.Body.List {
-								visit(cc.(*ast.CaseClause).Body, rest)
-							}
-						}
+						r.Violation(ruleName, funcKey(p, fd)+":defer "+nm, s.pos(ds.Pos()), "error result of the deferred call is dropped")
 					}
-				}
-				visit(fd.Body.List, nil)
+					return true
+				})
 			}
 		}
 	}
-	r.Analysed["error_returning_call_sites(goag,cmd/goag)"] = n
-	r.FloorMin("error-returning call sites in goag and cmd/goag", n, 25)
+	r.Analysed["error_returning_call_sites(goag,cmd/goag)"] = nForks
+	r.Analysed["functions_interpreted(goag,cmd/goag)"] = nFuncs
+	r.FloorMin("error-returning call sites in goag and cmd/goag", nForks, 20)
 }
+
 
 func condTestsErrG(info *types.Info, e ast.Expr, errObj types.Object) bool {
 	c := &c19{info: info}
